@@ -9,6 +9,7 @@ use std::collections::BTreeSet;
 
 pub mod conc;
 pub mod crash;
+pub mod damage;
 pub mod fault;
 pub mod keys;
 pub mod multi;
@@ -192,6 +193,7 @@ pub fn replay_any(body: &Value) -> Result<Option<String>, String> {
         Some("conc") => conc::replay(body),
         Some("reclaim") => reclaim::replay(body),
         Some("multi") => multi::replay(body),
+        Some("damage") => damage::replay(body),
         Some("c02-erasure") => seq::c02_erasure_replay(body),
         Some(k) => Err(format!("unknown replay kind {}", k)),
         None => Err("replay without kind".into()),
